@@ -92,6 +92,7 @@ type Env struct {
 	OutSched *SchedRec // schedule recorded by this run
 	caseHash uint64
 	Cover    []uint32
+	After    []func() // run after the bubble has ended (real time available)
 	Log      []string // event log (determinism self-test)
 	Logging  bool
 }
